@@ -22,7 +22,7 @@ EXPLANATION = (
     "0..23 h, 0..59 min, 0..60 s, utcdiff 0; mon_days[i] = cumulative days before month i; R09.2 layouts: _with_ms(21) _sec_only(17) ↔ "
     "date_time_parse, _time_with_ms(12) _time_only(8) ↔ time_parse, _date_only(8) _short_date_only(6) ↔ date_parse: same "
     "(offset,width,field) list, separators at skipped offsets, equal total length, inverse field offsets; R09.3 format0 writes exactly "
-    "`width` digits, parse_decimal consumes exactly `len`. NOT decided: calendar correctness, log renderer rounding.")
+    "`width` digits, parse_decimal consumes exactly `len`. R09.5 the scratch array of every date/time stream printer is a zero-initialised automatic local. NOT decided: log renderer rounding; state carried between calls by a cache (a cache is not wrong in itself, and its invalidation condition is a statement about values).")
 
 
 def _layout(fn, env, ptr_decl, is_writer):
@@ -91,6 +91,12 @@ def leap_rule(ctx, prog, te, RID):
     dec = decs[0]
     tcfg = te.cfg
     dv = tcfg.vertex_of(dec)
+    const_locals = []
+    for st_ in te.all_nodes():
+        if st_.k == 'DeclStmt':
+            for dd_, ini_ in st_.r.get('decls', []):
+                if ini_ >= 0 and len(q.local_defs(te, dd_)) == 1:
+                    const_locals.append((dd_, te.node(ini_)))
     wrong = []
     for y in range(70, 200):
         for m in range(0, 12):
@@ -100,13 +106,18 @@ def leap_rule(ctx, prog, te, RID):
                 if a.k == 'MemberExpr' and a.decl['n'] == 'tm_mon':
                     return _m
                 return None
-            def okedge(v, w, lab, _atom=atom):
+            env_ = {}
+            for (dd_, init_) in const_locals:           # named locals abbreviating a sub-expression of the year / month
+                v_ = q.eval_int(init_, env_, atom=atom)
+                if v_ is not None:
+                    env_[dd_] = v_
+            def okedge(v, w, lab, _atom=atom, _env=env_):
                 if lab is None or not isinstance(lab[1], bool):
                     return True
                 c = tcfg.cond_node(lab[0])
                 if c is None:
                     return True
-                val = q.eval_int(c, {}, atom=_atom)
+                val = q.eval_int(c, _env, atom=_atom)
                 return True if val is None else (bool(val) == lab[1])
             taken = dv in tcfg.reach_from(tcfg.entry, edge_ok=okedge)
             want = (y % 4 == 0) and m < 2
@@ -251,5 +262,32 @@ def run(ctx):
             n_buf += 1
             ctx.check(cap >= maxlen + 1, 'R09.3', f.q + '#buffer', c.loc, 'print buffer of %d bytes holds the longest layout (%d) + terminator' % (cap, maxlen))
     ctx.need(n_buf >= 3, 'fewer than 3 date_time_format calls into local buffers found (%d)' % n_buf)
+    # ---------------- R09.5 the stream printers render into a scratch array and stream it as a C string; date_time_format writes no terminator, so the
+    # array must be a zero-initialised automatic local of each call (what follows the rendered characters is then NUL, whatever was printed before)
+    n_sp = 0
+    seen_t = set()
+    for fp in prog.all_functions():
+        if fp.qp != 'FIX8::Field::print' or 'ostream' not in fp.sig or not fp.rec:
+            continue
+        T = fp.rec[len('FIX8::Field<'):fp.rec.rfind(',')]
+        has_arr = any(st_.k == 'DeclStmt' and any(fp.tu.types[fp.tu.decls[dd]['t']]['k'] == 'array' for dd, _ in st_.r.get('decls', [])) for st_ in fp.all_nodes())
+        if T in seen_t or not has_arr or fp.tmpl == 'pattern':
+            continue
+        seen_t.add(T)
+        ctx.saw(fp)
+        arrs = []
+        for st_ in fp.all_nodes():
+            if st_.k == 'DeclStmt':
+                for dd, init in st_.r.get('decls', []):
+                    if fp.tu.types[fp.tu.decls[dd]['t']]['k'] == 'array':
+                        arrs.append((dd, fp.tu.decls[dd], init))
+        n_sp += 1
+        bad = [d for (dd, d, init) in arrs if d.get('sc') != 'local' or init < 0]
+        ctx.check(not bad, 'R09.5', 'FIX8::Field<%s>::print/ostream#scratch-zeroed' % T, fp.loc,
+                  'the scratch array is an automatic local with a zero initialiser',
+                  'the scratch array `%s` is %s: date_time_format writes no terminator, so the text streamed is whatever a previous call left behind the rendered '
+                  'characters (a 6-character MonthYear printed after an 8-character one carries its last two characters)'
+                  % (bad[0]['n'] if bad else '', 'static / thread_local' if bad and bad[0].get('sc') != 'local' else 'not initialised'))
+    ctx.need(n_sp >= 4, 'fewer than 4 date/time stream printers found (%d)' % n_sp)
     ctx.floor('R09.2', 14)
     ctx.floor('R09.4', 2)
